@@ -412,7 +412,9 @@ func runPair(p *pairDesc) (res *pairResult) {
 				time.Sleep(d)
 			}
 			tr := tracks[a.Track]
-			ntp := time.Unix(0, a.NTP)
+			// the same instant, in a location that is not UTC for two pairs in three (what an application on a
+			// host outside UTC passes: AbsoluteTime must not depend on the location of the time.Time)
+			ntp := time.Unix(0, a.NTP).In(ntpLocs[(len(h.Ops)+len(h.Tracks))%3])
 			atomic.StoreInt64(&writesStarted, int64(k)+1)
 			var err error
 			switch h.Tracks[a.Track].Kind {
@@ -506,3 +508,5 @@ func runPair(p *pairDesc) (res *pairResult) {
 	st.mu.Unlock()
 	return res
 }
+
+var ntpLocs = []*time.Location{time.UTC, time.FixedZone("east", 5*3600+1800), time.FixedZone("west", -8*3600)}
